@@ -153,3 +153,12 @@ CLAIMS["C12"] = ("other",
     "local phases (Xcov), wrong-pair squeezers rejected. F15 found and repaired.",
     "blackbird template matching / layout isomorphism not under contract; Takagi/mesh re-synthesis bounded only",
     "deductive VCs (linear real/integer arithmetic) + bounded numeric stand-in", "DESIGN.md 5/C12")
+CLAIMS["C13"] = ("other",
+    "Proved: shift_by is the cyclic rotation for every list length and shift. Bounded stand-in for the rest (the unrolling "
+    "machinery drives Program.append and the sample arrangement is a property of an engine run): pulse-identifying "
+    "displacements show that entry (shot, band, bin) of Result.samples is the outcome of that pulse for 7 band layouts x 3 bin "
+    "counts x 2 shot counts x both measurement orders; register-shifting unrolling equals the hand-written fresh-mode loop, "
+    "space-unrolling equals it too (single band); all unroll/space_unroll/roll/lock call sequences up to length 3/4; "
+    "attributes of rolled operations survive. F17, F18, F33 found and repaired; F16, F32, F41 are open findings.",
+    "bounded by the listed configurations; Gaussian backend only",
+    "deductive VC for shift_by + bounded stand-in with pulse-identifying inputs", "DESIGN.md 5/C13")
